@@ -41,6 +41,7 @@ struct Knobs {
         double p_probe_ok = 0.3;
         double p_phases = 0.3;
         double p_long_run = 0.03;
+        double p_giant = 0.0004; // working buffer beyond 64 KiB with argument text that crosses the 16-bit boundary
         double p_cut_crlf = 0.08;
         double p_other = 0.15; // a second parser instance runs in between
         double p_ev_release = 0.15; // event handlers that release a hold
@@ -55,6 +56,8 @@ struct Gen {
         Knobs K;
         Plan p;
         ModelState ms; // tracks variable values so that valid/boundary arguments can be derived
+        bool giant = false;
+        bool empty_ev = false; // which producer may send empty handler texts
         explicit Gen(uint64_t seed) : r(seed) {}
 
         std::string rand_name(int maxlen)
@@ -173,11 +176,17 @@ struct Gen {
                         if ((kind == K_READ || kind == K_TEST) && r.chance(K.p_text_act)) {
                                 st.act = r.coin() ? A_SETTEXT : A_APPEND;
                                 int mx = std::max(2, cap - 1); // the longest text that still leaves room for the terminator
-                                int len = r.chance(0.15) ? mx : (int)r.range(2, std::min(mx, 12));
+                                int len = r.chance(giant ? 0.01 : 0.15) ? mx : (int)r.range(2, std::min(mx, 12));
                                 // handler texts of event sources and of line-addressable commands never coincide, so that
                                 // a unit on the wire is attributable to its producer
                                 st.text = rand_text(len, true);
                                 st.text[1] = ev_cmd ? 'e' : 'c';
+                                // a handler may also empty the prepared text and still ask for it to be sent: the unit is then two bare
+                                // newlines; only one producer per plan does so (attribution)
+                                if (ev_cmd == empty_ev && r.chance(0.08)) {
+                                        st.act = A_SETTEXT;
+                                        st.text.clear();
+                                }
                         } else if (nvars > 0 && !ev_cmd && r.chance(K.p_bump)) {
                                 st.act = A_BUMP;
                                 st.a = (int)r.below((uint64_t)nvars);
@@ -210,6 +219,12 @@ struct Gen {
                         cap = (int)r.range(24, 96);
                 cap = std::max(cap, (ncmd + 3) / 4);
                 p.shared = r.chance(K.p_shared);
+                giant = r.chance(K.p_giant);
+                empty_ev = r.coin();
+                if (giant) {
+                        cap = (int)r.range(65530, r.coin() ? 65560 : 70000);
+                        p.shared = r.chance(0.15);
+                }
                 if (p.shared) {
                         p.buf_size = cap * 2 + (int)r.below(2);
                         p.ubuf_size = 0;
@@ -661,6 +676,18 @@ struct Gen {
                                         args += (char)('a' + r.below(26));
                                 if ((int)args.size() > want && r.coin())
                                         args.resize((size_t)std::max(0, want));
+                        }
+                        if (giant && r.chance(0.6)) {
+                                // the argument text crosses 65536 bytes: filler in front of, or in the middle of, the generated arguments
+                                size_t want = (size_t)r.range(65520, 65560);
+                                if (want + args.size() + 2 >= (size_t)cap && r.coin())
+                                        want = (size_t)std::max(0, cap - (int)args.size() - (int)r.range(1, 4));
+                                int how = (int)r.below(4);
+                                std::string fill;
+                                for (size_t i = 0; i < want; i++)
+                                        fill += how == 0 ? '0' : how == 1 ? (char)('1' + r.below(9)) : how == 2 ? (char)('a' + r.below(6)) : (char)('a' + r.below(26));
+                                size_t at = r.coin() ? 0 : (size_t)r.below(args.size() + 1);
+                                args.insert(at, fill);
                         }
                         if (r.chance(0.03))
                                 args += "\nAT" + c.name; // text that would be a command of its own if the line were cut
@@ -1527,6 +1554,11 @@ void knobs_for(const std::string &prop, Knobs &K, Rng &r)
                 K.p_garbage = 0.15;
                 K.p_unsupported_size = 0.05;
         }
+        // argument text beyond 64 KiB: where over-long arguments and numeric/string parsing are the subject
+        if (prop == "C04" || prop == "C05" || prop == "C06")
+                K.p_giant = 0.0015;
+        else if (prop != "C01" && prop != "C03")
+                K.p_giant = 0.0;
         (void)r;
 }
 
